@@ -29,6 +29,7 @@ from tensorflow.lite.tools import flatbuffer_utils
 import types
 
 PROP = 'C14'
+patch.snapshot_process_state()
 LEVEL = 'model_checking'
 USES_FAKE_INTERPRETER = True
 FUNCS = [quantizer_lib.Quantizer.quantize, quantizer_lib.Quantizer.calibrate,
@@ -176,10 +177,14 @@ def make_harness(model_bytes, ra, rb):
     ra_in, rb_in = copy.deepcopy(ra), copy.deepcopy(rb)
     ra_s, rb_s = json.dumps(ra_in, sort_keys=True), json.dumps(
         rb_in, sort_keys=True)
+    other_bytes = P.variant_model(model_bytes)
     with patch.symbolic_numpy(), patch.rebind(
         'ai_edge_quantizer.utils.tfl_interpreter_utils', 'tfl',
         fakeinterp.Module):
-      # reference: fresh Quantizer, fresh copy of the statistics
+      # reference: fresh process (process-wide state of the repo's modules
+      # put back to its import-time content), fresh Quantizer, fresh copy of
+      # the statistics
+      patch.fresh_process_state()
       ref_b = capture_quantize(quantizer_lib.Quantizer(
           bytes(keep_bytes), copy.deepcopy(rb)), fresh_res())
       ref_a = capture_quantize(quantizer_lib.Quantizer(
@@ -252,6 +257,38 @@ def make_harness(model_bytes, ra, rb):
       o5 = capture_quantize(q5, fresh_res())
       models_equal(e, 'C14.history.repeated_quantize_is_idempotent', o5,
                    ref_a, 'S5 after get_quantization_recipe')
+      # S6: "other Quantizer objects", other model: a second checkpoint of
+      # the same architecture (equal tensor names, shapes, buffer indices,
+      # other weights) quantized first in a fresh process, then this model
+      # with fresh Quantizers
+      patch.fresh_process_state()
+      capture_quantize(quantizer_lib.Quantizer(other_bytes, copy.deepcopy(rb)),
+                       fresh_res())
+      capture_quantize(quantizer_lib.Quantizer(other_bytes, copy.deepcopy(ra)),
+                       fresh_res())
+      o6b = capture_quantize(quantizer_lib.Quantizer(
+          bytes(keep_bytes), copy.deepcopy(rb)), fresh_res())
+      models_equal(e, 'C14.history.independent_of_other_models_quantized_before',
+                   o6b, ref_b, 'S6 B after another checkpoint')
+      o6a = capture_quantize(quantizer_lib.Quantizer(
+          bytes(keep_bytes), copy.deepcopy(ra)), fresh_res())
+      models_equal(e, 'C14.history.independent_of_other_models_quantized_before',
+                   o6a, ref_a, 'S6 A after another checkpoint')
+      # S7: calibrate() of the other checkpoint first (constants' statistics
+      # are collected at calibration time), then this model
+      patch.fresh_process_state()
+      om = flatbuffer_utils.read_model_from_bytearray(bytearray(other_bytes))
+      try:
+        quantizer_lib.Quantizer(other_bytes, copy.deepcopy(ra)).calibrate(
+            ds(), key)
+      except Inconclusive:
+        raise
+      except Exception:  # pylint: disable=broad-except
+        pass
+      o7 = capture_quantize(quantizer_lib.Quantizer(
+          bytes(keep_bytes), copy.deepcopy(rb)), fresh_res())
+      models_equal(e, 'C14.history.independent_of_other_models_quantized_before',
+                   o7, ref_b, 'S7 B after calibrating another checkpoint')
   return h
 
 
@@ -279,6 +316,8 @@ def job_hist(job):
     seen = set()
     for v in en.violations:
       key = (v.name, str(v.info)[:60])
+      if 'other_models' in v.name:
+        key = v.name  # replayed in fresh processes: one candidate per case
       if key in seen:
         continue
       seen.add(key)
@@ -309,6 +348,53 @@ def jobs(tier, seed):
   if tier == 'thorough':
     js.append(Job('hashseed', job_hashseed, {}))
   return js
+
+
+_FRESH_CODE = r"""
+import sys, pickle, copy
+import numpy as np
+steps = pickle.loads(sys.stdin.buffer.read())
+from ai_edge_quantizer import quantizer
+for mb, recipe, qsvs in steps:
+  try:
+    with np.errstate(all='ignore'):
+      out = bytes(quantizer.Quantizer(mb, recipe).quantize(qsvs).quantized_model)
+  except Exception as ex:
+    out = f'{type(ex).__name__}: {ex}'
+sys.stdout.buffer.write(b'@@RESULT@@' + pickle.dumps(out))
+"""
+
+
+def fresh_process_bytes(steps):
+  """In a really fresh interpreter process: one fresh Quantizer per step
+  (model, recipe, calibration result), quantize(); result of the LAST step."""
+  import os as _os, pickle, subprocess, sys
+  env = dict(_os.environ, PYTHONPATH='/repo', TF_CPP_MIN_LOG_LEVEL='3')
+  env.pop('AI_EDGE_QUANTIZER_VERIF', None)
+  r = subprocess.run([sys.executable, '-W', 'ignore', '-c', _FRESH_CODE],
+                     input=pickle.dumps([(bytes(m), copy.deepcopy(rc),
+                                          copy.deepcopy(q))
+                                         for m, rc, q in steps]),
+                     capture_output=True, env=env)
+  if b'@@RESULT@@' not in r.stdout:
+    raise Inconclusive('fresh process failed: ' + r.stderr.decode()[-200:])
+  return pickle.loads(r.stdout.split(b'@@RESULT@@', 1)[1])
+
+
+def _other_model_history(mb, ra, rb, qsvs):
+  """Two really fresh processes: (1) quantize(model, B) alone; (2) another
+  checkpoint of the architecture (equal tensor names, shapes, buffer indices,
+  other weights) quantized first under A and B, then quantize(model, B), each
+  with its own fresh Quantizer.  The bytes must be identical."""
+  other = P.variant_model(mb)
+  want = fresh_process_bytes([(mb, rb, qsvs)])
+  got = fresh_process_bytes([(other, ra, qsvs), (other, rb, qsvs),
+                             (mb, rb, qsvs)])
+  if got != want:
+    return ['quantize(model, B) after another checkpoint with equal tensor '
+            'names was quantized in the same process differs from a fresh '
+            'process']
+  return []
 
 
 def _bytes_histories(mb, ra, rb, qsvs):
@@ -376,6 +462,9 @@ def job_bytes(job):
                  ('a16w8', 'DRQ')):
       n += 1
       pr = _bytes_histories(mb, recs[a], recs[b], qsvs)
+      if (a, b) == ('DRQ', 'a8w8'):
+        n += 1
+        pr += _other_model_history(mb, recs[a], recs[b], qsvs)
       if pr:
         cands.append(Candidate('C14.bytes.history_independent', {
             'concrete_bytes': True, 'skeleton': skel, 'A': a, 'B': b,
@@ -434,6 +523,8 @@ def replay(c):
     inp = flatbuffer_utils.read_model_from_bytearray(bytearray(mb))
     pr = _bytes_histories(mb, recs[d['A']], recs[d['B']],
                           P.concrete_qsvs(inp, None))
+    pr += _other_model_history(mb, recs[d['A']], recs[d['B']],
+                               P.concrete_qsvs(inp, None))
     return bool(pr), 'bytes depend on the call history', (
         f"skeleton={d['skeleton']} A={d['A']} B={d['B']}: {pr[:2]}")
   fam = P.skeleton_family('thorough')
@@ -464,6 +555,10 @@ def replay(c):
   if after_a != ref_b:
     bad.append('quantize(B) after quantize(A) on the shared calibration '
                'result differs from quantize(B) alone')
+  if 'independent_of_other_models' in c.get('obligation', ''):
+    bad += _other_model_history(mb, ra, rb, base)
+    if not bad:
+      bad += _other_model_history(mb, rb, ra, base)
   wc = ('quantize() rewrites the caller\'s calibration result in place '
         '(same-scale / fixed-range statistics)'
         if any('rewritten' in x for x in bad) else 'history')
